@@ -64,6 +64,10 @@ def features() -> List[dict]:
         F("fn_branch_ret", defs=["def sel(v):", "    if v > 2:", "        return 1.5", "    return 2"], loop=["mon.write(sel(a))"]),
         F("fn_local_prom", defs=["def acc(n):", "    for i in range(n):", "        tot = i * 1.5", "        lbl = \"k\"", "    return n"], loop=["mon.write(acc(2))"]),
         F("fn_global", defs=["def bump():", "    global cnt", "    cnt = cnt + 1"], setup=["cnt = 0"], loop=["bump()", "mon.write(cnt)"]),
+        F("tuple_mixed", setup=["tm = 1", "tm, tn = 2, a"], loop=["tn = tn + tm", "mon.write(tn)"]),
+        F("fn_global_only", defs=["def setgg():", "    global gg", "    gg = 5"], setup=["setgg()"], loop=["gg = gg + 1", "mon.write(gg)"]),
+        F("fn_global_loop_first", defs=["def setgl():", "    global gl", "    gl = 1.5"], loop=["setgl()", "gl = 7", "mon.write(gl)"]),
+        F("fn_global_before_init", defs=["def setgi():", "    global gi", "    gi = 120"], setup=["setgi()", "gi = 200"], loop=["mon.write(gi)"]),
         F("tuple", setup=["p, q = a, 2"], loop=["p, q = q, p + q", "mon.write(p)"]),
         F("tuple_new_loop", loop=["r1, r2 = a + 1, a * 0.5", "mon.write(r2)"]),
         F("minmax", loop=["mon.write(max(a, 2) + min(a, 3) + abs(a - 5))"]),
